@@ -126,11 +126,52 @@ def gen_units():
     return rc == 0, o
 
 
+def gen_project():
+    """_CoqProject and Extract/Dispatch.v are generated from what is on disk: every .v file under theories
+    (except Extract/Extract.v) and the `(* DISPATCH <code> <function> *)` markers of each Cnn/Codec.v."""
+    th = os.path.join(COQ, "theories")
+    entries = []
+    for f in coq_files():
+        rel = os.path.relpath(f, COQ)
+        if rel.endswith("Extract/Extract.v") or rel.endswith("Extract/Dispatch.v"):
+            continue
+        entries.append(rel)
+        if os.path.basename(f) == "Codec.v":
+            pass
+    disp, reqs = [], []
+    for f in coq_files():
+        if os.path.basename(f) != "Codec.v":
+            continue
+        mod = os.path.relpath(f, th)[:-2].replace(os.sep, ".")
+        found = re.findall(r"\(\*\s*DISPATCH\s+(\d+)\s+([\w']+)\s*\*\)", open(f).read())
+        if found:
+            reqs.append(mod)
+            for code, fn in found:
+                disp.append((int(code), f"{mod}.{fn}"))
+    dv = ["(* GENERATED by ./check from the DISPATCH markers of every Cnn/Codec.v -- do not edit. *)",
+          "From Coq Require Import List ZArith NArith.", "From MV Require Import Common.Sx."]
+    dv += [f"From MV Require {m}." for m in reqs]
+    dv += ["Import ListNotations.", "", "Definition dispatch (code : N) (x : sx) : sx :=", "  match code with"]
+    dv += [f"  | {c}%N => {fn} x" for c, fn in sorted(disp)]
+    dv += ["  | _ => L []", "  end.", ""]
+    write_if_changed(os.path.join(th, "Extract", "Dispatch.v"), "\n".join(dv))
+    cp = ["-Q theories MV",
+          "-arg -w -arg -notation-overridden,-deprecated-hint-without-locality,-deprecated-instance-without-locality,-ambiguous-paths,-deprecated-hint-rewrite-without-locality"]
+    cp += sorted(entries) + ["theories/Extract/Dispatch.v", ""]
+    write_if_changed(os.path.join(COQ, "_CoqProject"), "\n".join(cp))
+
+
+def write_if_changed(path, text):
+    if not os.path.exists(path) or open(path).read() != text:
+        open(path, "w").write(text)
+
+
 def build_coq():
     """Full .vo build (never -vos/-vok) of every theory; -k so one broken development does not hide
     the state of the others.  Returns (ok_for_all, log)."""
     with Lock("coq"):
         ok_gen, gen_log = gen_units()
+        gen_project()
         mk = os.path.join(COQ, "Makefile")
         cp = os.path.join(COQ, "_CoqProject")
         if not os.path.exists(mk) or os.path.getmtime(mk) < os.path.getmtime(cp):
@@ -242,15 +283,26 @@ def build_harness(release=False):
         ct = os.path.join(d, "Cargo.toml")
         if not os.path.exists(ct) or open(ct).read() != tmpl:
             open(ct, "w").write(tmpl)
+        mods = sorted(f[:-3] for f in os.listdir(os.path.join(VERIF, "harness", "src"))
+                      if re.match(r"c\d+\.rs$", f))
+        reg = "// GENERATED by ./check: one module per harness/src/cNN.rs\n"
+        for m in mods:
+            reg += f'#[path = "{os.path.join(VERIF, "harness", "src", m + ".rs")}"]\npub mod {m};\n'
+        reg += "pub fn dispatch(name: &str, ctx: &crate::common::Ctx) -> bool {\n    match name {\n"
+        for m in mods:
+            reg += f'        "{m}" => {m}::run(ctx),\n'
+        reg += "        _ => return false,\n    }\n    true\n}\n"
+        regp = os.path.join(d, "registry.rs")
+        write_if_changed(regp, reg)
         lock_src = os.path.join(REPO, "Cargo.lock")
         lock_dst = os.path.join(d, "Cargo.lock")
         if not os.path.exists(lock_dst):
             shutil.copy(lock_src, lock_dst)
         cmd = ["cargo", "build", "--offline", "--quiet"] + (["--release"] if release else [])
-        rc, o = sh(cmd, cwd=d, env={"RUSTFLAGS": f"--cfg {GUARD}"}, timeout=3000)
+        rc, o = sh(cmd, cwd=d, env={"RUSTFLAGS": f"--cfg {GUARD}", "MV_REGISTRY": regp}, timeout=3000)
         if rc != 0 and "Cargo.lock" in o:
             shutil.copy(lock_src, lock_dst)
-            rc, o = sh(cmd, cwd=d, env={"RUSTFLAGS": f"--cfg {GUARD}"}, timeout=3000)
+            rc, o = sh(cmd, cwd=d, env={"RUSTFLAGS": f"--cfg {GUARD}", "MV_REGISTRY": regp}, timeout=3000)
         binp = os.path.join(d, "target", "release" if release else "debug", "mv-harness")
         return rc == 0, o, binp
 
